@@ -21,32 +21,39 @@ struct C37 {
     rt: tokio::runtime::Runtime,
     chain: Vec<ExtendedHeader>,
     bs: VerifBroadcastingStore<InMemoryStore>,
-    log: Arc<Mutex<Vec<u64>>>,
+    log: Arc<Mutex<Vec<(u64, bool)>>>,
+    /// the subscriber task (aborted by `unsub`: the channel then has no receiver)
+    sub: tokio::task::JoinHandle<()>,
 }
 
-fn fresh(rt: &tokio::runtime::Runtime) -> (VerifBroadcastingStore<InMemoryStore>, Arc<Mutex<Vec<u64>>>) {
+fn fresh(rt: &tokio::runtime::Runtime) -> (VerifBroadcastingStore<InMemoryStore>, Arc<Mutex<Vec<(u64, bool)>>>, tokio::task::JoinHandle<()>) {
     let bs = VerifBroadcastingStore::new(Arc::new(InMemoryStore::new()));
     let log = Arc::new(Mutex::new(vec![]));
     let mut rx = bs.subscribe();
     let l = log.clone();
-    rt.spawn(async move {
+    let store = bs.inner_store();
+    let sub = rt.spawn(async move {
         loop {
             match rx.recv().await {
-                Ok(h) => l.lock().unwrap().push(h.height()),
-                Err(RecvError::Lagged(_)) => l.lock().unwrap().push(LAG),
+                Ok(h) => {
+                    // "only after it was stored": look into the store at the moment of reception
+                    let stored = store.has_at(h.height()).await;
+                    l.lock().unwrap().push((h.height(), stored))
+                }
+                Err(RecvError::Lagged(_)) => l.lock().unwrap().push((LAG, true)),
                 Err(RecvError::Closed) => break,
             }
         }
     });
-    (bs, log)
+    (bs, log, sub)
 }
 
 impl C37 {
     fn new() -> Self {
         let rt = tokio::runtime::Builder::new_current_thread().enable_all().build().unwrap();
         let chain = ExtendedHeaderGenerator::new().next_many(CHAIN);
-        let (bs, log) = fresh(&rt);
-        C37 { rt, chain, bs, log }
+        let (bs, log, sub) = fresh(&rt);
+        C37 { rt, chain, bs, log, sub }
     }
     fn header(&self, h: u64) -> ExtendedHeader {
         self.chain[(h - 1) as usize].clone()
@@ -65,13 +72,10 @@ impl C37 {
                 tokio::task::yield_now().await;
             }
         });
-        let sent: Vec<String> = self
-            .log
-            .lock()
-            .unwrap()
-            .drain(..)
-            .map(|h| if h == LAG { "lag".to_string() } else { h.to_string() })
-            .collect();
+        let received: Vec<(u64, bool)> = self.log.lock().unwrap().drain(..).collect();
+        let sent: Vec<String> =
+            received.iter().map(|(h, _)| if *h == LAG { "lag".to_string() } else { h.to_string() }).collect();
+        let early: Vec<String> = received.iter().filter(|(_, st)| !st).map(|(h, _)| h.to_string()).collect();
         let pending: Vec<String> = self
             .bs
             .pending_heights()
@@ -79,8 +83,9 @@ impl C37 {
             .map(|r| if r.is_empty() { "_".to_string() } else { r.iter().map(|h| h.to_string()).collect::<Vec<_>>().join("+") })
             .collect();
         format!(
-            "res={res} sent={} last={} pending={}",
+            "res={res} sent={} early={} last={} pending={}",
             if sent.is_empty() { "-".to_string() } else { sent.join(",") },
+            if early.is_empty() { "-".to_string() } else { early.join(",") },
             self.bs.last_sent_height().map(|h| h.to_string()).unwrap_or("none".into()),
             if pending.is_empty() { "-".to_string() } else { pending.join("|") }
         )
@@ -245,15 +250,43 @@ impl Prop for C37 {
                     sh.last_sent = Some(l);
                 }
             }
+            // no receivers (added after tools/coverage.sh showed `send_range`'s "no receivers" exit was never
+            // taken): the subscriber leaves, then new heads / gap fills / a re-init keep arriving
+            if hist % 4 == 0 {
+                out.op("unsub", "unsub", true);
+                for _ in 0..rng.usize(1, 4) {
+                    let max = *sh.stored.iter().next_back().unwrap();
+                    if max + 6 > CHAIN {
+                        break;
+                    }
+                    if rng.chance(1, 4) {
+                        let h = max + rng.range(1, 3);
+                        out.op(format!("init h={h}"), "init/no-receivers", true);
+                        sh.stored.insert(h);
+                        continue;
+                    }
+                    let lo = max + 1 + if rng.chance(1, 3) { rng.range(1, 3) } else { 0 };
+                    let hi = lo + rng.range(0, 4);
+                    let ok = sh.insert_ok(lo, hi);
+                    out.op(format!("insert from={lo} to={hi} ok={}", ok as u8), "insert/no-receivers", true);
+                    if ok {
+                        (lo..=hi).for_each(|h| {
+                            sh.stored.insert(h);
+                        });
+                    }
+                }
+            }
             out.op("reset", "reset", false);
         }
     }
     fn run(&mut self, line: &str) -> String {
         match opname(line) {
             "reset" => {
-                let (bs, log) = fresh(&self.rt);
+                self.sub.abort();
+                let (bs, log, sub) = fresh(&self.rt);
                 self.bs = bs;
                 self.log = log;
+                self.sub = sub;
                 "ok".into()
             }
             "prefill" => {
@@ -274,6 +307,12 @@ impl Prop for C37 {
                     }
                 });
                 self.bs.init_broadcast(head);
+                self.observe("-")
+            }
+            "unsub" => {
+                // the only subscriber goes away: `broadcast::Sender::send` fails from now on and
+                // `send_range` takes its "no receivers - skip sending" exit
+                self.sub.abort();
                 self.observe("-")
             }
             "insert" => {
